@@ -98,13 +98,22 @@ def run(chk):
     success_protocol(chk, repo, ms, f)
     totality(chk, repo)
     kernel_extents(chk, repo)
-    # ---- whole-driver symbolic execution: bounds of every array access during a complete solve; inputs restored on normal and failing exits
-    from . import solver_whole
-    solver_whole.assembled(chk, repo, None, None, None, rule_bounds='R06.2')
-    solver_whole.inputs_intact(chk, repo, 'R06.1')
     status_discipline(chk, repo, ms, f)
     length_guards(chk, repo, ms)
     chk.floor('R06.5', 2); chk.floor('R06.6', 4)
+    # ---- whole-driver symbolic execution (last): bounds of every array access during a complete solve; inputs restored on normal and failing exits.
+    #      If the driver cannot be interpreted on a tree for which the rules above already report unlisted violations, those are the verdict; otherwise fail closed.
+    from . import solver_whole
+    from ..core.report import load_known, norm_key
+    try:
+        solver_whole.assembled(chk, repo, None, None, None, rule_bounds='R06.2')
+        solver_whole.inputs_intact(chk, repo, 'R06.1')
+    except AnalysisError as ex:
+        known = {norm_key(e_['key']) for e_ in load_known() if e_.get('property') == 'C06' and e_.get('status') == 'known'}
+        if any((not o.ok) and o.key not in known for o in chk.obls):
+            chk.note_analysed('whole-driver symbolic execution', f'not completed on this tree ({str(ex)[:160]}); the structural rules above report the violations')
+        else:
+            raise
     chk.floor('R06.1', 5); chk.floor('R06.2', 60); chk.floor('R06.3', 8); chk.floor('R06.4', 10)
 
 
@@ -199,8 +208,30 @@ def typestate(chk, repo, ms, f, noexcept):
                 offenders.append((st, 'exception leaves the function', may_raise.why(st)))
             if v == EXIT and v in reach:
                 offenders.append((st, 'normal exit', 'return'))
-    seen = set()
+    # a call of a repository function that can raise is reported through the `raise` statements of that function (transitively, depth 2): the finding then
+    # keeps its identity when the raising code is moved into / out of a helper
+    def callee_raises(st, depth=0):
+        out = []
+        for c in ast.walk(st):
+            if isinstance(c, ast.Call) and isinstance(c.func, ast.Name) and isinstance(ms.defs.get(c.func.id), ast.FunctionDef) and c.func.id not in noexcept:
+                callee = ms.defs[c.func.id]
+                for r_ in ast.walk(callee):
+                    if isinstance(r_, ast.Raise):
+                        out.append(r_)
+                if depth < 1:
+                    for st2 in callee.body:
+                        out += callee_raises(st2, depth + 1)
+        return out
+    expanded = []
     for st, how, why in offenders:
+        inner = callee_raises(st) if not isinstance(st, ast.Raise) else []
+        if inner:
+            for r_ in inner:
+                expanded.append((r_, how, f'raised inside a helper called at line {st.lineno}'))
+        else:
+            expanded.append((st, how, why))
+    seen = set()
+    for st, how, why in expanded:
         head = re.sub(r'\s+', ' ', ast.unparse(st).split('\n')[0])[:90]
         key = f'R06.1|{head}'
         if key in seen: continue
